@@ -10,6 +10,8 @@ S->C: Convolution.tla enumerates (frame, odd kernel shape, kernel variant, mask 
       simulate -> mask -> fit are run -- for 4 of 5 instances with a kernel OBJECT that has a history (derived by
       2.0 * base, -base, base + ndarray or item assignment from a base kernel that was already used in whole-frame
       convolutions and in a simulation), and compared with Convolver(mask, that same object).
+      For 2 of 3 instances the shared Convolver is first given calls it refuses part-way (over-long blurring image /
+      image / mapping matrix, exception caught) before the judged calls (spec: action FailedCall changes nothing).
       Two further instance kinds of the bounded machine: STRUCTURED kernels (every pattern of zero / cancelling /
       generic first, last and inner rows and columns, Sobel / Prewitt / Laplacian / diagonal kernels, single entries,
       zero-padded kernels; operator extraction, basis matrix, whole frame + Convolver of the same kernel) and SIMULATION instances (every
@@ -29,7 +31,7 @@ IS = 2.0 ** -12  # image / matrix scale (entries below any plausible sparsity th
 OFFV = 999999999  # "not on the lattice" marker understood by Trace_Convolution.tla
 
 INVARIANTS = ["FootprintInside", "EvenKernelRejected", "BlurringIsMasksBlurring", "OperatorTableIsDefinitionOnBasis",
-              "FramesImplementDefinition", "PaddingIsEntrywise", "ScatterIsMaskedBlur", "MatrixIsColumnwise",
+              "FramesImplementDefinition", "FailedCallLeavesOperator", "PaddingIsEntrywise", "ScatterIsMaskedBlur", "MatrixIsColumnwise",
               "SimulateThenFitResidualZero", "SimulatedDataFitsGeneratingImage", "CentreAndHomogeneity", "FrameShape"]
 
 MC_CFG = ("CONSTANTS\n  Families <- MCFamilies\n  Variants <- MCVariants\n  EvenKernels <- MCEven\n"
@@ -137,7 +139,7 @@ def enumerate_instances(ctx, fams, sfams=(), mfams=(), variants=("pos", "signed"
     want_sim = sum(2 ** (f[6] * f[7]) - 1 for f in mfams) * N_SIM_OPTIONS
     if (n["pos"] + n["signed"] != odd or n_even != len(even) * len(variants) or n["sim"] != want_sim
             or (sfams and n["struct"] < 20 * len(sfams))
-            or res.distinct != 3 * (odd + n["struct"]) + 4 * n["sim"] + 2 * n_even):
+            or res.distinct != 4 * odd + 3 * n["struct"] + 4 * n["sim"] + 2 * n_even):
         raise core.MachineryError(f"Convolution.tla enumerated {n} (+{n_even} even) instances / {res.distinct} states, expected "
                                   f"{odd} identifiable, {want_sim} simulation, {len(even) * len(variants)} even")
     return insts
@@ -249,9 +251,32 @@ def records_for(inst, seed=0):
             shared["bmask"] = mask.derive_mask.blurring_from(kernel_shape_native=(kh, kw))
         return shared["conv"], shared["bmask"]
 
+    # ---------------- an error step on the same Convolver object ---------------------------------
+    # 2 of 3 instances: before judged calls the shared convolver is first given a call it refuses part-way (an
+    # over-long blurring image / image / mapping matrix: IndexError after some accumulation).  The exception is caught;
+    # the judged valid call that follows must be what it always is.
+    with_failed = variant != "sim" and int(rng.integers(0, 3)) > 0
+    over_long = aa.Array2D.no_mask(values=rng.integers(1, 9, size=(h, w)).astype(float), pixel_scales=ps)  # h*w entries
+
+    def refused(which, failed):
+        """make one call that must be refused; appends what was refused to `failed` (nothing if it was accepted)"""
+        if not with_failed:
+            return
+        conv, bmask = convolver()
+        try:
+            if which == "blurring":
+                conv.convolve_image(image=aa.Array2D(values=over_long.native, mask=mask), blurring_image=over_long)
+            elif which == "image":
+                conv.convolve_image_no_blurring(image=over_long)
+            else:
+                conv.convolve_mapping_matrix(mapping_matrix=np.ones((h * w + 1, 2)))
+        except Exception as e:  # noqa
+            failed.append(f"{which}:{type(e).__name__}")
+
     # ---------------- operator extraction on basis images ----------------------------------------
     def operator():
         conv, bmask = convolver()
+        failed = []
         bl = [int(x) for x in np.flatnonzero(~np.asarray(bmask, dtype=bool).ravel())]
         nB = len(bl)
         zU, zB = np.zeros(nU), np.zeros(nB)
@@ -261,12 +286,18 @@ def records_for(inst, seed=0):
             e = zU.copy()
             e[a] = amp
             img = aa.Array2D(values=e, mask=mask)
+            if a % 3 == 0:
+                refused("blurring", failed)
             opi.append(alpha(np.array(conv.convolve_image(image=img, blurring_image=aa.Array2D(values=zB, mask=bmask))), KS * amp))
+            if a % 3 == 1:
+                refused("image", failed)
             opn.append(alpha(np.array(conv.convolve_image_no_blurring(image=img)), KS * amp))
         for b in range(nB):
             amp = IS * (1 + b % 2) * (-1 if b % 3 == 1 else 1)
             e = zB.copy()
             e[b] = amp
+            if b % 4 == 0:
+                refused("blurring", failed)
             opb.append(alpha(np.array(conv.convolve_image(image=aa.Array2D(values=zU, mask=mask),
                                                           blurring_image=aa.Array2D(values=e, mask=bmask))), KS * amp))
         # the same couplings must explain a run on arbitrary real kernel / image values
@@ -291,27 +322,31 @@ def records_for(inst, seed=0):
                             real_ok = False
             if got.shape != want.shape or not np.all(np.abs(got - want) <= 1e-12 * mag + 1e-300):
                 real_ok = False
-        return {"bl": bl, "opi": opi, "opn": opn, "opb": opb, "real_ok": bool(real_ok)}
+        return {"bl": bl, "opi": opi, "opn": opn, "opb": opb, "real_ok": bool(real_ok), "failed": sorted(set(failed))}
 
     full_set = variant not in ("struct", "sim")
     if variant != "sim":
-        guarded("operator", operator, bl=[], opi=[], opn=[], opb=[], real_ok=False)
+        guarded("operator", operator, bl=[], opi=[], opn=[], opb=[], real_ok=False, failed=[])
 
     # ---------------- one dense signed image with junk outside mask + blurring region -------------
     def image():
         conv, bmask = convolver()
         nat = rng.integers(1, 9, size=(h, w)) * rng.choice([-1, 1], size=(h, w))
         natf = nat.astype(float) * IS
+        failed = []
+        refused("blurring", failed)
         out = np.array(conv.convolve_image(image=aa.Array2D(values=natf, mask=mask), blurring_image=aa.Array2D(values=natf, mask=bmask)))
+        refused("image", failed)
         outn = np.array(conv.convolve_image_no_blurring(image=aa.Array2D(values=natf, mask=mask)))
+        refused("blurring", failed)
         inside = ~m | ~np.asarray(bmask, dtype=bool)
         junk = np.where(inside, natf, rng.standard_normal((h, w)) * 1e6)
         out2 = np.array(conv.convolve_image(image=aa.Array2D(values=junk, mask=mask), blurring_image=aa.Array2D(values=junk, mask=bmask)))
         return {"img": nat.ravel().astype(int).tolist(), "out": alpha(out, KS * IS), "outn": alpha(outn, KS * IS),
-                "junk_ok": bool(out.shape == out2.shape and np.array_equal(out, out2))}
+                "junk_ok": bool(out.shape == out2.shape and np.array_equal(out, out2)), "failed": sorted(set(failed))}
 
     if full_set:  # (structured kernels: the extracted operator and the basis matrix already pin both code paths)
-        guarded("image", image, img=[], out=[], outn=[], junk_ok=False)
+        guarded("image", image, img=[], out=[], outn=[], junk_ok=False, failed=[])
 
     # ---------------- mapping matrices ------------------------------------------------------------
     def matrix(kind):
@@ -329,15 +364,17 @@ def records_for(inst, seed=0):
                 mi[int(rng.integers(0, nU)), int(rng.integers(0, 3))] = -3
             mf = mi.astype(float) * sc
             keep = mf.copy()
+            failed = []
+            refused("matrix" if kind in ("basis", "signed") else "blurring", failed)
             out = np.asarray(conv.convolve_mapping_matrix(mapping_matrix=mf))
             if not np.array_equal(mf, keep):
                 raise RuntimeError("mapping matrix modified in place")
-            return {"m": mi.astype(int).tolist(), "out": alpha(out, KS * sc) if out.ndim == 2 else []}
+            return {"m": mi.astype(int).tolist(), "out": alpha(out, KS * sc) if out.ndim == 2 else [], "failed": failed}
 
         return run
 
     for kind in (("basis", "fraction", "dense", "signed") if full_set else ("basis",) if variant == "struct" else ()):
-        guarded("matrix", matrix(kind), kind=kind, m=[], out=[])
+        guarded("matrix", matrix(kind), kind=kind, m=[], out=[], failed=[])
 
     # ---------------- kernels with a history ---------------------------------------------------------
     HISTORIES = ("fresh", "scaled", "negated", "added", "item-assigned")
@@ -555,6 +592,8 @@ def random_instances(rng, n, max_side=9):
 def describe(rec):
     s = f"{rec['api']}{'/' + rec['kind'] if 'kind' in rec else ''}{'/' + rec['history'] + '-kernel' if rec.get('history') else ''} on {rec['h']}x{rec['w']} frame, kernel {rec['kh']}x{rec['kw']} " \
         f"k={rec.get('k')}, unmasked={rec['u']} ({rec.get('variant', '')} instance)"
+    if rec.get("failed"):
+        s += f" after refused calls {rec['failed']} on the same Convolver"
     if rec.get("err"):
         s += f" raised {rec['err']}"
     return s
